@@ -31,14 +31,19 @@ EXTENDS Integers, Sequences, FiniteSets, TLC, LedgerOps
 CONSTANTS Kinds,        \* subset of {"EDF", "FIFO", "LSF"}
           Now,          \* the scheduler's invocation time in the bound
           MaxTasks,     \* 1..MaxTasks tasks per instance
-          KeyProfiles,  \* set of [deadline, release, graph]
-          StratLists,   \* set of strategy sequences
-          PoolSeqs,     \* set of pool sequences
-          FirstShapes,  \* the part of the bound a run enumerates (a subset of TaskShapes)
-          Records       \* sequence of call records (<<>> in enumeration runs)
+          Shapes,       \* sequence of task shapes [deadline, release, graph, strats]
+          PoolSeqs,     \* sequence of pool sequences
+          NShapes, NPools, GraphOf,   \* Len(Shapes), Len(PoolSeqs), graph of each shape (see BoundOK)
+          FirstIx,      \* the part of the bound a run enumerates: shape indices of the first task
+          Records,      \* sequence of call records (<<>> in enumeration runs)
+          NRecords      \* Len(Records)
 
-VARIABLES idx, kind, inst
-vars == <<idx, kind, inst>>
+\* A state is the *code* of an instance (shape index per task, index of the pool
+\* sequence) or the index of a call record; the instance itself is looked up in
+\* the invariants.  (TLC re-evaluates configuration constants at every reference
+\* while it computes initial states, so Init only mentions small ones.)
+VARIABLES idx, kind, sel, pix
+vars == <<idx, kind, sel, pix>>
 
 -----------------------------------------------------------------------------
 (* resource vectors *)
@@ -227,23 +232,29 @@ SameAsPlan(k, I, a) == LET P == Plan(k, I) IN a.place = P.place /\ a.order = P.o
 
 -----------------------------------------------------------------------------
 (* the bound *)
-TaskShapes ==
-    {[deadline |-> kp.deadline, release |-> kp.release, graph |-> kp.graph, strats |-> sl] :
-        kp \in KeyProfiles, sl \in StratLists}
+GraphGrouped(gs) ==
+    \A i, j, k \in 1..Len(gs) : (i < j /\ j < k /\ gs[i] = gs[k]) => gs[j] = gs[i]
 
-GraphGrouped(ts) ==
-    \A i, j, k \in 1..Len(ts) : (i < j /\ j < k /\ ts[i].graph = ts[k].graph) => ts[j].graph = ts[i].graph
+ShapeSet == {Shapes[i] : i \in 1..Len(Shapes)}
+PoolSeqSet == {PoolSeqs[i] : i \in 1..Len(PoolSeqs)}
 
+\* Instances = {I : InBound(I)}
 InBound(I) ==
     /\ I.now = Now
     /\ Len(I.tasks) \in 1..MaxTasks
-    /\ \A t \in 1..Len(I.tasks) : I.tasks[t] \in TaskShapes
-    /\ GraphGrouped(I.tasks)
-    /\ I.pools \in PoolSeqs
+    /\ \A t \in 1..Len(I.tasks) : I.tasks[t] \in ShapeSet
+    /\ GraphGrouped([t \in 1..Len(I.tasks) |-> I.tasks[t].graph])
+    /\ I.pools \in PoolSeqSet
 
-\* Instances = {I : InBound(I)}.  A run enumerates the part of it whose first
-\* task is in FirstShapes (one JVM per part; the parts partition the bound).
-RestSeqs == UNION {[1..n -> TaskShapes] : n \in 0..(MaxTasks - 1)}
+InstanceOf(s, p) ==
+    [now |-> Now, tasks |-> Tup([t \in 1..Len(s) |-> Shapes[s[t]]]), pools |-> PoolSeqs[p]]
+
+\* the small constants describe the big ones, and codes are injective
+BoundOK ==
+    /\ NShapes = Len(Shapes) /\ NPools = Len(PoolSeqs) /\ NRecords = Len(Records)
+    /\ GraphOf = Tup([i \in 1..NShapes |-> Shapes[i].graph])
+    /\ Cardinality(ShapeSet) = NShapes /\ Cardinality(PoolSeqSet) = NPools
+    /\ FirstIx \subseteq 1..NShapes
 
 -----------------------------------------------------------------------------
 (* vacuity counters (TLC registers; the runs use a single worker) *)
@@ -269,33 +280,36 @@ Stats(k, I, a) ==
 StatsLine == PrintT("@@stats " \o ToString([r \in 1..(NStats + 1) |-> TLCGet(r)]))
 
 -----------------------------------------------------------------------------
-(* M: every instance of the bound is an initial state; there are no steps *)
+(* M: every instance of the bound is an initial state; there are no steps.   *)
+(* A run enumerates the part whose first task has its shape in FirstIx (one   *)
+(* JVM per part; the parts partition the bound).                              *)
 EnumInit ==
     /\ idx = 0
     /\ kind \in Kinds
-    /\ \E f \in FirstShapes, r \in RestSeqs, ps \in PoolSeqs :
-          LET ts == <<f>> \o r
-          IN  /\ GraphGrouped(ts)
-              /\ inst = [now |-> Now, tasks |-> ts, pools |-> ps]
+    /\ sel \in UNION {[1..n -> 1..NShapes] : n \in 1..MaxTasks}
+    /\ sel[1] \in FirstIx
+    /\ GraphGrouped([t \in 1..Len(sel) |-> GraphOf[sel[t]]])
+    /\ pix \in 1..NPools
 
 NoNext == idx < 0 /\ UNCHANGED vars
 
 \* the theorem: the intended algorithm satisfies the property (and returns a
 \* feasible answer in key order) on every instance of the bound
 Theorem ==
-    LET P == Plan(kind, inst)
-    IN  /\ WellFormedInst(inst) /\ WellFormedAns(inst, P)
-        /\ NoInversion(kind, inst, P)
-        /\ Feasible(inst, P)
-        /\ OrderKey(kind, inst, P)
-        /\ Stats(kind, inst, P)
+    LET I == InstanceOf(sel, pix)
+        P == Plan(kind, I)
+    IN  /\ WellFormedInst(I) /\ InBound(I) /\ WellFormedAns(I, P)
+        /\ NoInversion(kind, I, P)
+        /\ Feasible(I, P)
+        /\ OrderKey(kind, I, P)
+        /\ Stats(kind, I, P)
 \* LSF allocates virtually with place_task(task) - no strategy - but reports the
 \* loop's strategy: on this bound both are the same strategy on the same worker
-CodedIsPlan == kind = "LSF" => CodedPlan(kind, inst) = Plan(kind, inst)
+CodedIsPlan ==
+    LET I == InstanceOf(sel, pix) IN kind = "LSF" => CodedPlan(kind, I) = Plan(kind, I)
 \* the property for the algorithm as written (used where CodedIsPlan fails)
-CodedNoInversion == NoInversion(kind, inst, CodedPlan(kind, inst))
-CodedFeasible    == Feasible(inst, CodedPlan(kind, inst))
-BoundOK          == InBound(inst)
+CodedNoInversion == LET I == InstanceOf(sel, pix) IN NoInversion(kind, I, CodedPlan(kind, I))
+CodedFeasible    == LET I == InstanceOf(sel, pix) IN Feasible(I, CodedPlan(kind, I))
 
 -----------------------------------------------------------------------------
 (* R / T: call records made on the real schedulers.                          *)
@@ -303,9 +317,8 @@ BoundOK          == InBound(inst)
 (* before / after: availability per pool / worker / resource name read from   *)
 (* the live pools just before and after schedule().                          *)
 RecInit ==
-    /\ idx \in 1..Len(Records)
-    /\ kind = Records[idx].kind
-    /\ inst = <<>>
+    /\ idx \in 1..NRecords
+    /\ kind = "" /\ sel = <<>> /\ pix = 0
 
 Clauses == {"harness.wf", "harness.bound", "harness.build", "C13.no_inversion", "C13.plan_eq",
             "C13.order_key", "side.feasible", "side.pools_unchanged", "model.coded_eq"}
